@@ -19,12 +19,12 @@ def main():
     props = [json.loads(l)['id'] for l in open(os.path.join(HERE, 'properties.jsonl')) if l.strip()]
     na = json.load(open(os.path.join(HERE, 'tools', 'not_applicable.json')))
     static = json.load(open(os.path.join(HERE, 'tools', 'manifest_static.json')))
+    registered = set(json.load(open(os.path.join(HERE, 'tools', 'registered.json'))))
     checks, engines = [], {}
     for pid in props:
         path = os.path.join(HERE, 'checks', pid + '.py')
-        if not os.path.exists(path) or pid in na: continue
+        if not os.path.exists(path) or pid in na or pid not in registered: continue
         m = load_meta(path)
-        if not m.get('registered', True): continue
         c = {'property_id': pid,
              'quick_cmd': '%s run_check.py %s --tier quick' % (PY, pid),
              'thorough_cmd': '%s run_check.py %s --tier thorough' % (PY, pid),
